@@ -51,6 +51,26 @@ func parseBoth(c *run.C, cd *codec.Codec, doc []byte, r *gen.Rand) (m *mon.Monit
 		c.Violationf("verdict", cd.Name+":chunk-verdict", "%s: Parse returned %v, chunked ParseReader %v returned %v\ndoc=%s", cd.Name, whole.err, sizes, ch.err, hexs(doc))
 		return nil, nil, false
 	}
+	// the pull decoders are entry points of the same parser: same verdict and,
+	// for accepted documents, the same events
+	entry := 3 + r.Intn(2)
+	dsizes := []int{gen.Pick(r, []int{1, 2, 3, 7, 16, 64, 4096}), r.Range(1, 9), r.Range(1, 70)}
+	dec := parseVia(c, cd, doc, dsizes, entry, r.Bool())
+	if !dec.ok {
+		return nil, nil, false
+	}
+	if (whole.err == nil) != (dec.err == nil) {
+		c.Violationf("verdict", cd.Name+":decoder-verdict", "%s: Parse returned %v, the pull decoder (entry %d, buffer/reads %v) returned %v\ndoc=%s", cd.Name, whole.err, entry, dsizes, dec.err, hexs(doc))
+		return nil, nil, false
+	}
+	if whole.err == nil {
+		a, b := normRefs(whole.events), normRefs(dec.events)
+		if a.String() != b.String() {
+			c.Violationf("mismatch", cd.Name+":decoder-events", "%s: the pull decoder (entry %d, buffer/reads %v) reports other events than Parse\ndoc=%s\nParse  =%s\ndecoder=%s", cd.Name, entry, dsizes, hexs(doc), a, b)
+			return nil, nil, false
+		}
+		c.Observe("decoder_runs_equal_to_parse", 1)
+	}
 	mm := mon.NewMonitor()
 	for _, e := range whole.events {
 		mon.Call(mm, e, false)
